@@ -43,6 +43,12 @@ ORCH = 'chainables.orchestrate'
 def run(ctx: Ctx):
   for r in (r1, r2, r3, r4, r5, r6, r7, r8, r9):
     ctx.guard(r)
+  from mlmverif.props import c06
+  ctx.include('R-C20-10', '"liveness is a function only of the last recorded heartbeat": the'
+              ' artificial pending future of a remote iteration never COMPLETES (it is'
+              ' cancelled on every exit) — a completed placeholder is fed to refresh() as if'
+              ' the worker had answered at the iteration start and can revive a worker that'
+              ' was declared dead (R-C06-8)', c06.r8, min_instances=1)
 
 
 def _registry(ctx):
